@@ -86,7 +86,7 @@ def families(ctx):
         # the bound of the property text (<=3 txs x <=3 outputs x <=2 spends), reduced alphabet, one environment
         # (positions, partition and error theorems; hash-tag independence and ranges on the smaller bound A2)
         ("A", dict(family="Q", pool="S", maxtx=3, maxout=3, maxsp=2, inv="CoreTheorems", **red)),
-        ("A2", dict(family="P", pool="S", maxtx=3, maxout=2, maxsp=2, **red)),
+        ("A2", dict(family="P", pool="S", maxtx=3, maxout=2, maxsp=1, **red)),
         ("B", dict(family="Q", pool="O", owners=full_o + ("m",), spends=full_s + ("m",), action=True, maxtx=2, maxout=2)),
         ("Bs", dict(family="P", pool="S", owners=full_o + ("m",), spends=full_s + ("m",), maxtx=2, maxout=2, maxsp=1)),
         ("X", dict(family="X", maxtx=2)),
